@@ -49,14 +49,45 @@ static void build(Binson &b, const Node &obj, uint64_t order_seed) {
     }
 }
 static BinsonValue to_bv(const Node &n, uint64_t order_seed) {
+    // every public way of making a value is used: copy / move constructors, the int and const char* conveniences, and the
+    // assignment operators on a default-constructed (or previously differently typed) value
+    unsigned how = (unsigned)(mix64(order_seed ^ 0x5eed) % 4);
     switch (n.t) {
-        case V_OBJ: { Binson o; build(o, n, order_seed); return BinsonValue(o); }
-        case V_ARR: { std::vector<BinsonValue> v; for (size_t i = 0; i < n.kids.size(); i++) v.push_back(to_bv(n.kids[i], order_seed * 7 + i)); return BinsonValue(v); }
-        case V_BOOL: return BinsonValue(n.b);
-        case V_INT: return BinsonValue((int64_t)n.i);
-        case V_DBL: { double d; memcpy(&d, &n.d, 8); return BinsonValue(d); }
-        case V_STR: return BinsonValue(std::string((const char *)n.s.data(), n.s.size()));
-        default: return BinsonValue(std::vector<uint8_t>(n.s.begin(), n.s.end()));
+        case V_OBJ: {
+            Binson o; build(o, n, order_seed);
+            if (how == 0) return BinsonValue(o);
+            if (how == 1) return BinsonValue(std::move(o));
+            BinsonValue x(how == 2 ? BinsonValue() : BinsonValue((int64_t)5)); x = std::move(o); return x;
+        }
+        case V_ARR: {
+            std::vector<BinsonValue> v; for (size_t i = 0; i < n.kids.size(); i++) v.push_back(to_bv(n.kids[i], order_seed * 7 + i));
+            if (how == 0) return BinsonValue(v);
+            if (how == 1) return BinsonValue(std::move(v));
+            BinsonValue x(how == 2 ? BinsonValue() : BinsonValue(true)); x = std::move(v); return x;
+        }
+        case V_BOOL: { if (how < 2) return BinsonValue(n.b); BinsonValue x(how == 2 ? BinsonValue() : BinsonValue("s")); bool b = n.b; x = std::move(b); return x; }
+        case V_INT: {
+            bool small = n.i >= INT32_MIN && n.i <= INT32_MAX;
+            if (how == 0) return BinsonValue((int64_t)n.i);
+            if (how == 1) { if (small) return BinsonValue((int)n.i); return BinsonValue((int64_t)n.i); }
+            BinsonValue x(how == 2 ? BinsonValue() : BinsonValue(1.5));
+            if (small && (order_seed & 16)) { int v = (int)n.i; x = std::move(v); } else { int64_t v = n.i; x = std::move(v); }
+            return x;
+        }
+        case V_DBL: { double d; memcpy(&d, &n.d, 8); if (how < 2) return BinsonValue(d); BinsonValue x(how == 2 ? BinsonValue() : BinsonValue((int64_t)9)); x = std::move(d); return x; }
+        case V_STR: {
+            std::string s((const char *)n.s.data(), n.s.size());
+            if (how == 0) return BinsonValue(std::string(s));
+            if (how == 1) { const std::string &cs = s; return BinsonValue(cs); }
+            if (how == 2 && s.find('\0') == std::string::npos) return BinsonValue(s.c_str());
+            BinsonValue x(how == 2 ? BinsonValue() : BinsonValue(false)); x = std::move(s); return x;
+        }
+        default: {
+            std::vector<uint8_t> v(n.s.begin(), n.s.end());
+            if (how == 0) return BinsonValue(std::vector<uint8_t>(v));
+            if (how == 1) { const std::vector<uint8_t> &cv = v; return BinsonValue(cv); }
+            BinsonValue x(how == 2 ? BinsonValue() : BinsonValue("t")); x = std::move(v); return x;
+        }
     }
 }
 static bool equal_bv(const BinsonValue &v, const Node &n);
@@ -71,6 +102,12 @@ static bool equal_obj(const Binson &b, const Node &n) {
         if (it->first != key) return false;                 // iteration order == bytewise ascending
         if (!b.hasKey(key)) return false;
         if (!equal_bv(b.get(key), k)) return false;
+    }
+    {   // a key that is not there: hasKey says so, get() throws a std::exception (and nothing else)
+        std::string absent = n.kids.empty() ? std::string("x") : std::string((const char *)n.kids.back().name.data(), n.kids.back().name.size()) + std::string(1, '\x01');
+        for (auto &k : n.kids) if (std::string((const char *)k.name.data(), k.name.size()) == absent) return true;
+        if (b.hasKey(absent)) return false;
+        try { (void)b.get(absent); return false; } catch (const std::exception &) {}
     }
     return true;
 }
@@ -267,7 +304,15 @@ Result cppwrap_execute(const Plan &p, const ExecCtx &c) {
         q.setup(10, 0, p.doc, false);
         Outcome a = q.call(mk(P_INIT_OBJ, -1));
         verify_ok = a.ret && q.call(mk(P_VERIFY)).ret;
-        if (op != 2 && op != 3 && !verify_ok) { r.invalid_plan = true; r.detail = "generated tree exceeds the wrapper's depth limit"; return r; }
+        if (op != 2) {
+            // a generated tree is valid by construction; whether it fits the wrapper's limit of 10 object levels is decided by the
+            // MODEL. (Asking the real verify here once hid a seeded change: a valid document it wrongly rejected was taken for a
+            // tree that is too deep and the plan was discarded.)
+            bool fits = need_depth(tree, false) <= 10;
+            if (fits && !verify_ok) { sink.fail("C15.verify_rejects_canonical", "binson_parser_verify (depth 10) rejects the canonical encoding of a tree within the wrapper's limits"); r.clause = sink.clause; r.detail = sink.detail; return r; }
+            if (!fits && verify_ok) { sink.fail("C15.verify_accepts_too_deep", "binson_parser_verify with max_depth 10 accepts a document nested deeper than 10 objects"); r.clause = sink.clause; r.detail = sink.detail; return r; }
+            if (op != 3 && !fits) { r.invalid_plan = true; r.detail = "generated tree exceeds the wrapper's depth limit"; return r; }
+        }
     }
     Node tree2; Bytes ref2;
     if (op == 4) {      // reference for the changed object
